@@ -22,6 +22,7 @@ type LoadStyle struct {
 	EndLine    bool  `json:"end_line"` // '94: explicit END line at the bottom
 	TrailCmt   bool  `json:"trailing_comment"`
 	NoFinalNL  bool  `json:"no_final_newline"`
+	LongLine   int   `json:"long_line"` // >0: one comment of that many characters (as a line or after an instruction)
 	pos        int
 }
 
@@ -101,14 +102,25 @@ func PrintLoadFile(code []ref.Instr, start int, legacy bool, m int, st LoadStyle
 		filler()
 		emit(s.opt() + s.cs("ORG") + s.gap() + strconv.Itoa(start) + eol())
 	}
-	for _, ins := range code {
+	longAt := -1
+	if s.LongLine > 0 && len(code) > 0 {
+		longAt = s.pick(len(code))
+	}
+	for k, ins := range code {
 		filler()
+		if k == longAt && s.pick(2) == 0 {
+			emit(";" + strings.Repeat("x", s.LongLine))
+			longAt = -1
+		}
 		op := s.cs(ref.OpNames[ins.Op])
 		if !legacy {
 			op += "." + s.cs(ref.ModNames[ins.Mod])
 		}
 		l := s.opt() + op + s.gap() + ref.ModeChars[ins.AM] + s.gap() + s.field(ins.A, m) + s.opt() + "," + s.opt() +
 			ref.ModeChars[ins.BM] + s.gap() + s.field(ins.B, m) + eol()
+		if k == longAt {
+			l += " ;" + strings.Repeat("y", s.LongLine)
+		}
 		emit(l)
 	}
 	if legacy {
